@@ -364,6 +364,35 @@ namespace KV.Sort
 open List
 variable {α : Type}
 
+/-- the `written` counter equals the number of records produced -/
+theorem combineWritten_eq (comb : α → α → Option α) : ∀ (ys : List α) (cur : α),
+    combineWritten comb cur ys = (combineGo comb cur ys).length := by
+  intro ys
+  induction ys with
+  | nil => intro cur; rfl
+  | cons y ys ih =>
+    intro cur
+    simp only [combineWritten, combineGo]
+    cases comb cur y with
+    | some c => exact ih c
+    | none => simp only [length_cons, ih y]; omega
+
+theorem mergeWritten_eq (lt : α → α → Bool) (comb) (pick) (runs : List (List α)) :
+    mergeWritten lt comb pick runs = (mergeGroup lt comb pick runs).length := by
+  unfold mergeWritten mergeGroup
+  cases kmerge lt pick (toQueue runs) with
+  | nil => rfl
+  | cons x xs => exact combineWritten_eq comb xs x
+
+/-- what is logged for the groups of a pass is the true length of the merged runs -/
+theorem storeRunsLogged_merge (lt : α → α → Bool) (comb) (pick) (gs : List (List (List α))) :
+    storeRunsLogged (gs.map (mergeWritten lt comb pick)) (gs.map (mergeGroup lt comb pick)) =
+      storeRuns (gs.map (mergeGroup lt comb pick)) := by
+  unfold storeRuns
+  congr 1
+  rw [List.map_map]
+  exact List.map_congr_left (fun g _ => mergeWritten_eq lt comb pick g)
+
 /-- a freshly pushed entry (`Entry(base, fd, offset, amount, buf_size)`) views the whole run -/
 theorem bufEntry_read {cap : Nat} (hcap : 0 < cap) (run : List α) :
     match BufEntry.read cap run with
